@@ -161,7 +161,8 @@ def units(prop, tier):
     if prop in ('C02', 'C11', 'C17'):
         out.append(pyvc_unit(prop, 'mode.ctr.init', lambda: registry('init'), [q('__init__')]))
     if prop in ('C02', 'C11'):
-        for name, n in (('AES', 4), ('DES3', 2)):
+        # (DES3 = 8-byte blocks: no default nonce, other counter lengths; its Counter route runs in both tiers, its nonce route in thorough)
+        for name, n in ((('AES', 4),) if tier == 'quick' else (('AES', 4), ('DES3', 2))):
             for i in range(n):
                 out.append(pyvc_unit(prop, 'mode.ctr.factory.%s.nonce.part%d' % (name, i),
                                      lambda name=name, i=i, n=n: registry('factory', name, 'nonce', part=(i, n)), [Q], weight=2))
@@ -180,3 +181,33 @@ def units(prop, tier):
         for n in ([0, 8, 32, 64, 128, -8] if tier == 'quick' else [8 * k for k in range(-1, 18)]):
             out.append(pyvc_unit(prop, 'counter.new.nbits%s' % n, lambda n=n: registry('counter_new', nbits=n), [CN]))
     return out
+
+
+# ======================================================================================================================
+# Notes
+#
+# OBSERVATION (no clause violated): Counter.new(64, initial_value=-5) is accepted ((-5).bit_length() == 3) and the cipher then
+#   starts at 0; the contracts take initial_value >= 0 as the domain (documented: "positive integer").
+# The Counter route is stated with spec.modes.ctr_block_digits (counter field digit by digit, the shape of the code's byte loop);
+#   units counter.digits_lemma.nNN prove ctr_block_digits == ctr_block (I2OSP / I2LE) for every length 0..16.
+# `_create_ctr_cipher` raises: which exception wins when several parameters are wrong at once is not documented; the contract
+#   says TypeError only for a TypeError-worthy fault, ValueError only for a ValueError-worthy one, and none on normal return.
+#
+# Strength check (tools/mut.py):
+#   _mode_ctr.py  self._next = ["encrypt"] -> ["encrypt", "decrypt"]       exit 1 @ CtrMode.encrypt.ensures.next, ensures.valid, on_raise.OverflowError  (C10)
+#   _mode_ctr.py  if "decrypt" not in self._next  (in encrypt)             exit 1 @ CtrMode.encrypt.raises_iff.TypeError.if / .only_if  (C10)
+#   _mode_ctr.py  create_string_buffer(len(plaintext) + 1)                 exit 1 @ CtrMode.encrypt.call_pre.isinstance_out_bytearray_and_len_out_data_len  (C17)
+#   _mode_ctr.py  c_size_t(len(plaintext) + 1)                             exit 1 @ CtrMode.encrypt.call_pre.data_len_len_in            (C17)
+#   _mode_ctr.py  if result == 0x60003  (was 0x60002)                      exit 1 @ CtrMode.encrypt.raises_iff.ValueError.only_if       (C11)
+#   _mode_ctr.py  if len(ciphertext) < len(output)  (was !=)               exit 1 @ CtrMode.decrypt.call_pre.isinstance_out_...         (C17)
+#   _mode_ctr.py  self.nonce = _copy_bytes(None, counter_len, icb)         exit 1 @ CtrMode.__init__.ensures.nonce_value, ensures.valid (C02)
+#   _mode_ctr.py  block_cipher.release() removed                           exit 1 @ CtrMode.__init__.ensures.handover                   (C17)
+#   _mode_ctr.py  (1 << (counter_len * 8)) < initial_value  (no -1)        exit 1 @ _create_ctr_cipher.ensures.accepted, ensures.icb_int (C11)
+#   _mode_ctr.py  if little_endian:  (was if not)                          exit 1 @ _create_ctr_cipher.ensures.icb                      (C02)
+#   _mode_ctr.py  initial_value & 127                                      exit 1 @ _create_ctr_cipher.ensures.icb
+#   _mode_ctr.py  suffix + b"".join(words) + prefix                        exit 1 @ _create_ctr_cipher.ensures.icb, ensures.nonce_attr
+#   _mode_ctr.py  if len(nonce) > factory.block_size  (was >=)             exit 0: equivalent mutant -- counter_len == 0 is refused by CTR_start_operation
+#                                                                           (native model) and still surfaces as ValueError
+#   _mode_ctr.py  RENAME _counter -> _cnt                                  exit 0
+#   Counter.py    if iv_bl > nbits + 1                                     exit 1 @ Counter.new.raises_iff.ValueError.if, ensures.range (C11)
+#   Counter.py    "counter_len": nbits // 4                                exit 1 @ Counter.new.ensures.entries
